@@ -517,7 +517,7 @@ def join_stop_variants(sc):
 
 def join_stop_generate():
     def generate(rng, tier):
-        n = 250 if tier == "quick" else 4000
+        n = 100 if tier == "quick" else 3000
         return [gen_join_scenario(rng, 2, tier, stop=True) for _ in range(n)]
     return generate
 
